@@ -65,6 +65,10 @@ pub struct Deserializer<R> {
     /// How many more levels of compound values (list, map, array, described type)
     /// may be entered before the input is rejected as too deeply nested
     remaining_depth: usize,
+    /// How many more array elements with a zero-width encoding (null, true, false,
+    /// uint0, ulong0, list0) may be produced. Such elements take no input bytes, so
+    /// their number is not bounded by the size of the input.
+    zero_width_budget: usize,
 }
 
 #[cfg(fe2o3_amqp_verif)]
@@ -86,6 +90,33 @@ impl<'de, R: Read<'de>> Deserializer<R> {
             struct_encoding: StructEncoding::None,
             elem_format_code: None,
             remaining_depth: MAX_NESTING_DEPTH,
+            zero_width_budget: MAX_ARRAY_COUNT,
+        }
+    }
+
+    /// Accounts for the elements of an array whose element constructor has no body.
+    /// `MAX_ARRAY_COUNT` bounds a single array; many such arrays in one input (each a
+    /// few bytes long) would still multiply into an allocation far beyond the input
+    /// size, so the elements are also counted over the whole input.
+    fn take_zero_width_elements(
+        &mut self,
+        format_code: &EncodingCodes,
+        count: usize,
+    ) -> Result<(), Error> {
+        match format_code {
+            EncodingCodes::Null
+            | EncodingCodes::BooleanTrue
+            | EncodingCodes::BooleanFalse
+            | EncodingCodes::Uint0
+            | EncodingCodes::Ulong0
+            | EncodingCodes::List0 => {
+                self.zero_width_budget = self
+                    .zero_width_budget
+                    .checked_sub(count)
+                    .ok_or(Error::InvalidValue)?;
+                Ok(())
+            }
+            _ => Ok(()),
         }
     }
 
@@ -929,6 +960,7 @@ where
                         let format_code = self
                             .read_format_code()
                             .ok_or_else(|| Error::unexpected_eof("Expecting format code"))??;
+                        self.take_zero_width_elements(&format_code, count)?;
                         self.elem_format_code = Some(format_code);
 
                         // Account for offset
@@ -960,6 +992,7 @@ where
                         let format_code = self
                             .read_format_code()
                             .ok_or_else(|| Error::unexpected_eof("Expecting format code"))??;
+                        self.take_zero_width_elements(&format_code, count)?;
                         self.elem_format_code = Some(format_code);
 
                         // Account for offset
